@@ -128,6 +128,47 @@ def same_states_case(case, rng, viol, counts, classes):
     return desc, None
 
 
+def report_renders_mean(run, viol, counts, classes):
+    """The determinant table of the written file shows, per group, the mean over the conformations:
+    pKa and energies to two decimals, the two neighbour counts as whole numbers. A mean count of
+    k + 1/2 has two nearest whole numbers; whichever way the writer goes, it goes the same way in
+    every row of one file."""
+    import math
+    from .. import obs
+    parsed = obs.parse_pka_text(run.text)
+    try:
+        table = obs.parse_det_rows(parsed["det_rows"])
+    except ValueError:
+        return
+    avr = {}
+    for g in run.rec["confs"]["AVR"]["groups"]:
+        avr.setdefault(g["label"], []).append(g)
+    ways = {}
+    for row in table:
+        gs = avr.get(row["label"], [])
+        if len(gs) != 1:
+            continue
+        g = gs[0]
+        counts["report_rows_vs_mean"] = counts.get("report_rows_vs_mean", 0) + 1
+        bad = []
+        for fld, tcol in (("pka", "pka"), ("E_vol", "E_vol"), ("E_loc", "E_loc")):
+            if abs(row[tcol] - g[fld]) > 0.00501:
+                bad.append("%s printed %.2f, mean %.4f" % (fld, row[tcol], g[fld]))
+        for fld in ("n_vol", "n_loc"):
+            m = g[fld]
+            if abs(row[fld] - m) >= 1.0:
+                bad.append("%s printed %d, mean %.3f" % (fld, row[fld], m))
+            elif abs(m - math.floor(m) - 0.5) < 1e-9:
+                ways.setdefault("down" if row[fld] == math.floor(m) else "up", []).append((row["label"], fld, m, row[fld]))
+        if bad:
+            viol.append({"cls": "report-is-not-the-mean", "msg": "%s: %s" % (row["label"], "; ".join(bad))})
+    if ways:
+        classes.append("half-integer-mean-count-reported")
+    if len(ways) > 1:
+        viol.append({"cls": "report-rounds-means-both-ways", "msg": "mean counts of k+1/2 are written down in %r and up in %r" % (
+            ways["down"][:2], ways["up"][:2])})
+
+
 def multiconf_blank(r):
     from .. import multiconf
     return multiconf._blank_alt(r) if r.raw is None else r
@@ -169,6 +210,8 @@ def run_case(case, tier):
     before = len(viol)
     multiconf.check_average(run.rec, viol, counts, classes)
     multiconf.check_topup(run.rec, text, ignore, viol, counts, classes)
+    if len(names) > 1 and run.text:
+        report_renders_mean(run, viol, counts, classes)
     if twins:
         # residues that share chain and number (insertion-code twins) are merged by label
         # (known finding icode-twins-merged); only violations located ON such a residue are
